@@ -21,6 +21,7 @@ type avlStream struct{ baseStream }
 func init() { register(avlStream{}) }
 
 func (avlStream) Name() string    { return "avl" }
+func (avlStream) Parallel() bool  { return true } // no shared state: cases run on all cores
 func (avlStream) Props() []string { return []string{"C19"} }
 
 func (avlStream) Gen(r *rand.Rand, tier string, idx int) []string {
